@@ -399,6 +399,9 @@ def check_c01(tier):
                         "filtered by the tool and outside the property)", "GENCODE GTF convention (3'UTR includes the stop codon)",
                         "fusion / circRNA / alternative-splicing units are covered by C15-C17 and the structural tiers, not here"]
     oracle_check(rep, tier, 'C01')
+    # fusion backbones: completeness of the peptides of the fused sequence (FusionTrace clause fusion_peptides_complete)
+    from checks import c15
+    c15.check_c15(tier, rep=rep, only_complete=True)
     return rep.finish()
 
 
